@@ -389,6 +389,14 @@ pub struct World {
     pub incarnation: BTreeMap<u8, u32>,
     /// handles of deleted keyspaces that are still alive: (keyspace index, handle)
     pub old: Vec<Option<(u8, Keyspace)>>,
+    /// C18: keys observed in their filtered form (cleared when the key is written again)
+    pub filtered_seen: std::collections::BTreeSet<(u8, Vec<u8>)>,
+    /// C18: where the newest version of a key lives: 0 active memtable, 1 sealed memtable, 2 table
+    pub loc: BTreeMap<(u8, Vec<u8>), u8>,
+    /// keyspaces with a queued flush task, in queue order
+    pub flush_queue: std::collections::VecDeque<u8>,
+    /// C18: keys whose newest version went through a major compaction (an assigned filter must have been applied)
+    pub must_filtered: std::collections::BTreeSet<(u8, Vec<u8>)>,
 }
 
 pub mod fjall_filter {
@@ -501,6 +509,10 @@ impl World {
             track_journals: false,
             incarnation: BTreeMap::new(),
             old: vec![],
+            filtered_seen: Default::default(),
+            loc: BTreeMap::new(),
+            flush_queue: Default::default(),
+            must_filtered: Default::default(),
         };
         for i in 0..w.cfg.nks as u8 {
             w.create_ks(i)?;
@@ -527,6 +539,10 @@ impl World {
             track_journals: false,
             incarnation: BTreeMap::new(),
             old: vec![],
+            filtered_seen: Default::default(),
+            loc: BTreeMap::new(),
+            flush_queue: Default::default(),
+            must_filtered: Default::default(),
         };
         let names: Vec<u8> = w.model.keys().copied().collect();
         for i in names {
@@ -579,6 +595,9 @@ impl World {
     }
 
     fn mitem(&mut self, it: &Item) {
+        self.filtered_seen.remove(&(it.ks, KEYS[it.k as usize].to_vec()));
+        self.must_filtered.remove(&(it.ks, KEYS[it.k as usize].to_vec()));
+        self.loc.insert((it.ks, KEYS[it.k as usize].to_vec()), 0);
         let newv = it.v.map(|v| self.val(it.ks, v));
         let m = self.model.get_mut(&it.ks).expect("model ks");
         match newv {
@@ -691,6 +710,9 @@ impl World {
             Op::Clear { ks } => {
                 self.ks[ks].clear().map_err(|x| e("clear", x))?;
                 self.model.get_mut(ks).expect("ks").clear();
+                self.filtered_seen.retain(|(k, _)| k != ks);
+                self.must_filtered.retain(|(k, _)| k != ks);
+                self.loc.retain(|(k, _), _| k != ks);
             }
             Op::Ingest { ks, items } => {
                 let h = &self.ks[ks];
@@ -709,7 +731,15 @@ impl World {
                 }
             }
             Op::Rotate { ks } => {
-                self.ks[ks].rotate_memtable().map_err(|x| e("rotate_memtable", x))?;
+                let rotated = self.ks[ks].rotate_memtable().map_err(|x| e("rotate_memtable", x))?;
+                if rotated {
+                    for ((k, _), l) in self.loc.iter_mut() {
+                        if k == ks && *l == 0 {
+                            *l = 1;
+                        }
+                    }
+                    self.flush_queue.push_back(*ks);
+                }
             }
             Op::Step { msg, jrot } => {
                 let pend = self.pending();
@@ -732,6 +762,13 @@ impl World {
                     self.wit.journal_deleted += 1;
                 }
                 if msg.contains("Flush") {
+                    if let Some(fks) = self.flush_queue.pop_front() {
+                        for ((k, _), l) in self.loc.iter_mut() {
+                            if *k == fks && *l == 1 {
+                                *l = 2;
+                            }
+                        }
+                    }
                     self.wit.flushed += 1;
                 } else if msg.contains("Compact") {
                     self.wit.compacted += 1;
@@ -740,8 +777,17 @@ impl World {
             Op::Major { ks } => {
                 self.ks[ks].major_compact().map_err(|x| e("major_compact", x))?;
                 self.wit.compacted += 1;
+                let keys: Vec<(u8, Vec<u8>)> = self.loc.iter().filter(|((k, _), l)| k == ks && **l == 2).map(|(k, _)| k.clone()).collect();
+                self.must_filtered.extend(keys);
             }
             Op::Reopen => {
+                // after recovery the placement of unflushed data is not tracked: no obligation from it
+                for l in self.loc.values_mut() {
+                    if *l == 1 {
+                        *l = 0;
+                    }
+                }
+                self.flush_queue.clear();
                 self.close();
                 if self.cfg.prov {
                     // C12: once the database is dropped no handle is left: folders of deleted keyspaces must be gone
